@@ -251,6 +251,20 @@ pub fn serve(args: &[String]) -> ! {
         }
     }
     crate::fault::install_from_env();
+    if std::env::var("AQV_WATCH_RELOADS").is_ok() {
+        std::thread::spawn(|| {
+            let mut last = 0;
+            loop {
+                let n = aquatic_common::verif::reload_count();
+                while last < n {
+                    last += 1;
+                    println!("RELOAD-COUNT {}", last);
+                    std::io::stdout().flush().ok();
+                }
+                std::thread::sleep(Duration::from_millis(5));
+            }
+        });
+    }
     let t0 = Instant::now();
     let r: Result<(), String> = match kind {
         "udp" => serde_json::from_str::<aquatic_udp::config::Config>(json).map_err(|e| format!("config: {}", e)).and_then(|c| aquatic_udp::run(c).map_err(|e| format!("{:#}", e))),
